@@ -47,8 +47,8 @@ COMPONENTS = {
     "real": ["prtpy.partitioning.complete_greedy.anytime", "prtpy.partitioning.cbldm.cbldm / CBLDM_algo",
              "prtpy.partitioning.complete_karmarkar_karp_sy.generator", "prtpy.partitioning.karmarkar_karp_sy.BinsSortedByMaxDiff",
              "prtpy.binners (both managers)", "prtpy.objectives", "numpy"],
-    "simulated": ["clock (time.perf_counter and friends as seen from prtpy modules) -> dsim.seams.SimClock",
-                  "generator consumer (when to resume, when to abandon) -> harness"],
+    "simulated": ["clock (time.perf_counter and friends as seen from prtpy modules, timeit.default_timer) -> dsim.seams.SimClock",
+                  "generator consumer (when to resume, when to abandon) -> harness", "logging level of the prtpy.* loggers (LogSeam)"],
     "stubbed": [],
 }
 
